@@ -245,7 +245,7 @@ func (x *Exec) quantifyForalls(env *CEnv, c *Contract, unbound []ParamSpec, qreq
 			ts[i] = Tm{bn, l.sort}
 			bvs = append(bvs, fmt.Sprintf("(%s %s)", bn, l.sort))
 		}
-		sub.bound[fa.Name] = m.build(t, ts)
+		sub.bindQ(fa.Name, m.build(t, ts))
 	}
 	var sides []Tm
 	sub.sides = &sides
